@@ -35,6 +35,9 @@ def main(argv):
         tier = "quick"
     t0 = time.time()
 
+    import warnings
+
+    warnings.simplefilter("ignore", SyntaxWarning)
     from . import instrument
 
     instrument.install()
